@@ -194,19 +194,35 @@ Definition quirk_kind (o : pop) (d : doc) : N :=
   | PReplace (Some p) _, Some v => if dash_quirk v p then 1 else 0
   | PMove (Some from) (Some to), Some v =>
       if toks_eqb from to then (match rfc_get v from with None => 3 | Some _ => 0 end)
-      else if dash_quirk v from then 1
-      else match take_action ARemove v from with
-           | Some v' => if addlen_quirk v' to then 2 else 0
+      else if is_prefix_of from to then 0
+      else match lookup v from with
            | None => 0
+           | Some _ => match take_action ARemove v from with
+                       | Some v' => if addlen_quirk v' to then 2 else 0
+                       | None => 0
+                       end
            end
   | PMove (Some from) (Some to), None => if toks_eqb from to then 3 else 0
   | PCopy (Some from) (Some to), Some v =>
-      if toks_eqb from to then 3
-      else if addlen_quirk v to then 2 else 0
+      if toks_eqb from to then (match from with [] => 0 | _ => 3 end)
+      else match lookup v from with
+           | None => 0
+           | Some _ => if addlen_quirk v to then 2 else 0
+           end
   | PCopy (Some from) (Some to), None => if toks_eqb from to then 3 else 0
   | _, _ => 0
   end.
 Definition quirk_step (o : pop) (d : doc) : bool := negb (quirk_kind o d =? 0).
+(* the one place where a recorded departure can coincide with the RFC result: copy with from = path
+   (non-root) that resolves - the library returns success without evaluating; for a member of an
+   object in canonical form the RFC's add replaces the value by itself *)
+Definition copy_coincidence (o : pop) (d : doc) : bool :=
+  match o, d with
+  | PCopy (Some from) (Some to), Some v =>
+      toks_eqb from to && match rfc_get v from with Some _ => true | None => false end
+  | _, _ => false
+  end.
+
 (* no step of the run of [ops] on [d] lands on one of the recorded departures *)
 Fixpoint quirk_free (ops : list pop) (d : doc) : bool :=
   match ops with
